@@ -10,6 +10,8 @@ import vt.props
 def run_units(ctx, proofs_ok, only=None):
     pid = ctx.pid.lower()
     names = sorted(m.name for m in pkgutil.iter_modules(vt.props.__path__) if m.name.startswith(pid + "_"))
+    from vt.common import only_units
+    only = only or only_units()
     if only:
         names = [n for n in names if n.split("_", 1)[1] in only]
     for n in names:
